@@ -44,7 +44,7 @@ def pair_cases(prop, defs, pairs, quick, rng, per_pair):
         vals = wvals[w]
         pp = len(vals) if label.startswith("same") else per_pair     # the unchanged schema gets every value
         picks = vals if pp >= len(vals) else ([vals[0]] + rng.sample(vals[1:], pp - 1))
-        if label.startswith("same"):
+        if prop == "C03" and label.startswith("same"):
             # larger values (many elements, strings beyond the small-object threshold): decoded, then kept across collections
             wt = {"k": "struct", "ptr": False, "s": w}
             for j, (cs, ln) in enumerate(((20, 40), (6, 300), (40, 9))):
@@ -98,7 +98,7 @@ def run_pairs(prop, tier, seed, work, res, defs, pairs, per_pair, two_hop=False,
             tags = checks_codec.struct_tags(w, v, defs)
         scen.append(decode_scenario(prop, cid, t, m, dest, defs, w=w, wv=v, label=label, two_hop=th, extra_tags=tags,
                                     gc=(not th and (n % 4 == 0 or "-big" in cid))))
-        if label.startswith("same") and dest != "val":
+        if prop == "C03" and label.startswith("same") and dest != "val":
             # the unchanged schema: every value also over a fully populated destination (nothing of the old
             # nested values may remain where the message carries a sparser one)
             scen.append(decode_scenario(prop, cid + "-val", t, m, "val", defs, w=w, wv=v, label=label))
